@@ -253,6 +253,31 @@ static void c11_views(const std::string& text, const JsonPointer& jp, size_t pi,
   }
 }
 
+// The input at a start address that is NOT a multiple of 8 / 16 (a field inside a message, a string_view into a
+// larger buffer): every offset k = 1..7 from an aligned address; under ASan the block ends exactly with the input,
+// otherwise closers and digits follow. The outcome must be the one of the aligned exact-size placement.
+static void c11_misaligned(const std::string& text, const JsonPointer& jp, const C11Res& alone, uint8_t* scratch, vr::Ctx& ctx) {
+  for (unsigned k = 1; k <= 7; k++) {
+    char place[40];
+#if HAVE_ASAN
+    uint8_t* blk = (uint8_t*)std::malloc(k + text.size());
+    std::memcpy(blk + k, text.data(), text.size());
+    snprintf(place, sizeof place, "heap block, start offset %u", k);
+    C11Res r = c11_call(blk + k, text.size(), jp, text, place, ctx, false);
+    std::free(blk);
+#else
+    const size_t tl = std::strlen(kTails[1]);
+    std::memcpy(scratch + k, text.data(), text.size());
+    std::memcpy(scratch + k + text.size(), kTails[1], tl);
+    snprintf(place, sizeof place, "view at offset %u + tail1", k);
+    C11Res r = c11_call(scratch + k, text.size(), jp, text, place, ctx, false);
+#endif
+    if (!(r == alone))
+      ctx.violation("start_address_influence", "ondemand_start_address_influence", text, "[%s] outcome depends on the start address of the input: error %d offset %zu slice [%zu,+%zu), aligned: error %d offset %zu slice [%zu,+%zu)", place,
+                    r.err, r.off, r.sbeg, r.slen, alone.err, alone.off, alone.sbeg, alone.slen);
+  }
+}
+
 int main(int argc, char** argv) {
   vr::Args args = vr::parse_args(argc, argv);
   vr::Runner R(args);
@@ -953,6 +978,7 @@ int main(int argc, char** argv) {
       for (size_t pi = 0; pi < jps.size(); pi++) {
         C11Res alone = c11_call((const uint8_t*)b.p, b.n, jps[pi], text, "exact-heap", ctx, pi < 11);
         c11_views(text, jps[pi], pi, alone, scratch.data(), ctx);
+        if (pi % 4 == 0 || pi == 1 || pi == 6) c11_misaligned(text, jps[pi], alone, scratch.data(), ctx);
       }
 #else
       if (text.size() > 2 * Guarded::PG) return;
@@ -961,6 +987,7 @@ int main(int argc, char** argv) {
       for (size_t pi = 0; pi < jps.size(); pi++) {
         C11Res alone = c11_call(pe, text.size(), jps[pi], text, "page-end", ctx, pi < 11);
         c11_views(text, jps[pi], pi, alone, scratch.data(), ctx);
+        if (pi % 4 == 0 || pi == 1 || pi == 6) c11_misaligned(text, jps[pi], alone, scratch.data(), ctx);
       }
       const uint8_t* ps = guard.at_start(text);
       for (size_t pi = 0; pi < jps.size(); pi++) c11_call(ps, text.size(), jps[pi], text, "page-start", ctx, false);
